@@ -37,11 +37,28 @@ def sign_scripts():
     return str(core.REPO / "ncs" / "sign_script.py"), str(core.REPO / "ncs" / "basic_kms.py")
 
 
-def sign_single(inp: Path, out: Path, keys: Keys, key: str, kid: int, alg: str, action: str, via="lib"):
-    """Run the real `sign single-level`.  Returns error text or None."""
+def sign_single(inp: Path, out: Path, keys: Keys, key: str, kid: int, alg: str, action: str, via="lib", stale=None):
+    """Run the real `sign single-level`.  Returns error text or None.
+    stale = (key, kid, alg): the output path already holds what an EARLIER run of the tool wrote for the same input with another
+    key / key id (a build directory after a key rotation); an output that is still that file afterwards was not written."""
     ss, kms = sign_scripts()
     if out.exists():
         out.unlink()
+    if stale is not None:
+        if sign_single(inp, out, keys, stale[0], stale[1], stale[2], "remove-old", via="lib") is None and out.exists():
+            old = out.read_bytes()
+            err = sign_single_keep(inp, out, keys, key, kid, alg, action, via)
+            if out.exists() and out.read_bytes() == old:
+                out.unlink()
+                return err or "the output file still holds the earlier run's envelope"
+            return err
+        if out.exists():
+            out.unlink()
+    return sign_single_keep(inp, out, keys, key, kid, alg, action, via)
+
+
+def sign_single_keep(inp: Path, out: Path, keys: Keys, key: str, kid: int, alg: str, action: str, via="lib"):
+    ss, kms = sign_scripts()
     if via == "cli":
         p = subprocess.run(core.cli_cmd("sign", "single-level", "--input-envelope", inp, "--output-envelope", out,
                                         "--key-name", key, "--key-id", core.num(kid), "--alg", alg, "--context",
